@@ -87,6 +87,28 @@ const OTHER_KINDS: [std::io::ErrorKind; 12] = [
     std::io::ErrorKind::WriteZero,
 ];
 
+/// an iterator that is NOT fused: a Zero event makes it return None once, later calls resume
+/// (what e.g. `mpsc::Receiver::try_iter()` does); after the last event it returns None forever
+pub struct IterMock {
+    evs: Vec<Sev>,
+    pos: usize,
+}
+impl Iterator for IterMock {
+    type Item = u8;
+    fn next(&mut self) -> Option<u8> {
+        while self.pos < self.evs.len() {
+            let e = self.evs[self.pos];
+            self.pos += 1;
+            match e {
+                Sev::Byte(b) => return Some(b),
+                Sev::Zero => return None,
+                _ => {}
+            }
+        }
+        None
+    }
+}
+
 /// embedded_hal 0.2 serial reader; after the last event it would block forever
 pub struct EhMock {
     evs: Vec<Sev>,
@@ -244,7 +266,13 @@ fn run_rd2<B: Mk>(kind: &str, evs: &str, calls: &str) -> String {
     let bytes: Vec<u8> = ev.iter().filter_map(|e| if let Sev::Byte(b) = e { Some(*b) } else { None }).collect();
     match kind {
         "slice" => run_calls!(B::builder().from_slice(&bytes), calls),
-        "iter" => run_calls!(B::builder().from_iterator(bytes.iter()), calls),
+        "iter" => {
+            if ev.iter().any(|e| matches!(e, Sev::Zero)) {
+                run_calls!(B::builder().from_iterator(IterMock { evs: ev, pos: 0 }), calls)
+            } else {
+                run_calls!(B::builder().from_iterator(bytes.iter()), calls)
+            }
+        }
         "io" => run_calls!(B::builder().from_reader(IoMock { evs: ev, pos: 0 }), calls),
         "eh" => run_calls!(B::builder().from_eh_reader(EhMock { evs: ev, pos: 0 }), calls),
         _ => panic!("bad source kind"),
@@ -257,7 +285,13 @@ fn run_rd_default(kind: &str, evs: &str, calls: &str) -> String {
     let bytes: Vec<u8> = ev.iter().filter_map(|e| if let Sev::Byte(b) = e { Some(*b) } else { None }).collect();
     match kind {
         "slice" => run_calls!(SmlReader::from_slice(&bytes), calls),
-        "iter" => run_calls!(SmlReader::from_iterator(bytes.clone().into_iter()), calls),
+        "iter" => {
+            if ev.iter().any(|e| matches!(e, Sev::Zero)) {
+                run_calls!(SmlReader::from_iterator(IterMock { evs: ev, pos: 0 }), calls)
+            } else {
+                run_calls!(SmlReader::from_iterator(bytes.clone().into_iter()), calls)
+            }
+        }
         "io" => run_calls!(SmlReader::from_reader(IoMock { evs: ev, pos: 0 }), calls),
         "eh" => run_calls!(SmlReader::from_eh_reader(EhMock { evs: ev, pos: 0 }), calls),
         _ => panic!("bad source kind"),
